@@ -25,6 +25,10 @@ INT_EXPRS = [
     "Conditional(Gt(x, 0), Conditional(Gt(y, 0), 1, 2), Conditional(Lt(y, -1), 3, 4))",
     "Conditional(And(Gt(x, 0), Or(Lt(y, 2), Ge(z, 1))), x, y)", "Conditional(Or(And(Gt(x, 0), Lt(y, 2)), Ge(z, 1)), 1/2, 1/3)",
     "Conditional(Not(Gt(x, 0)), 1, 0)/4", "Gt(x, 0)/2", "Conditional(Eq(x, 1), 1/4, 3/4)",
+    # integer-valued sub-expressions: C picks int arithmetic / the int overloads for them
+    "abs(floor(x))", "abs(floor(x) - 3)*y", "Abs(floor(x/2))", "2000000000 + 2000000000", "x + (2000000000 + 2000000000)",
+    "floor(x) + 1", "floor(x)/2", "floor(x)**2", "(floor(x) + 1)/(floor(y) + 3)", "Conditional(Gt(x, 0), 1, 0) + Conditional(Gt(y, 0), 1, 0)",
+    "(Conditional(Gt(x, 0.25), 3, 1) + 1)/4", "Lt(x, 2)/2", "3000000000", "-2147483648 - 1", "abs(2 - 5)", "Mod(floor(x), 3)",
 ]
 INT_PARAM_MODEL = ("parameters(c=1/4, d=2/3, e=1/2 + 1, f=10/4, g=3, h=-1/8)\nstates(x=1/2, y=3/4, z=2)\n"
                    "dx_dt = c*x + d\ndy_dt = e*y - f\ndz_dt = g*z + h\n")
